@@ -55,3 +55,20 @@ def model_rv_deviation(f, vnames, ps, du, lin, n_off, rng, npts=4):
         allow = np.where(near_pi, 3e-5 * abs(x[0]) / (1 - e_) ** 2 / scale, 0.0)
         worst = max(worst, float(np.max(np.maximum(np.abs(model_rv - want) / scale - allow, 0.0))))
     return worst
+
+
+def compile_model(model, names=("model_rv", "ln_likelihood")):
+    import pytensor
+    outs = model.replace_rvs_by_values([model[n] for n in names])
+    f = pytensor.function(model.value_vars, outs, on_unused_input="ignore")
+    return f, [v.name for v in model.value_vars]
+
+
+def evaluate(f, vnames, ps, du, n_off, point, x):
+    """point = (P_d, e, omega, M0, s_du); x in the data unit `du`, design-matrix order. Returns the compiled outputs or
+    None when a value variable could not be mapped."""
+    P_d, e_, om, M0, s_du = point
+    val = value_point(ps, du, n_off, P_d, e_, om, M0, s_du, x)
+    if [v for v in vnames if v not in val]:
+        return None
+    return [np.asarray(o, dtype=float) for o in f(*[np.asarray(val[v], dtype=float) for v in vnames])]
